@@ -26,6 +26,38 @@ using vf::TMO;
 using TCM2 = vf::Tracked<vf::kCopyMove, 1>;
 using vf::val;
 
+// registered constructors and destructor but DEFAULTED (trivial) assignment operators: an owner that selects a bitwise path because the
+// alternative is "trivially assignable" must still construct and destroy it properly (its constructors and destructor are not trivial)
+struct TTA {
+    int v;
+    TTA() noexcept : v(0) { vf::registry().on_ctor(this, v); }
+    TTA(int x) noexcept : v(x) { vf::registry().on_ctor(this, v); } // NOLINT
+    TTA(TTA const& o) noexcept : v(o.v)
+    {
+        vf::registry().check_live(&o, "copy-from-not-live", "copy constructor read a source that is not live");
+        vf::registry().on_ctor(this, v);
+    }
+    TTA(TTA&& o) noexcept : v(o.v)
+    {
+        vf::registry().check_live(&o, "move-from-not-live", "move constructor read a source that is not live");
+        vf::registry().on_ctor(this, v);
+    }
+    auto operator=(TTA const&) -> TTA& = default;
+    auto operator=(TTA&&) -> TTA&      = default;
+    ~TTA() { vf::registry().on_dtor(this); }
+    int value() const
+    {
+        vf::registry().check_live(this, "read-not-live", "value read from an object that is not live");
+        return v;
+    }
+    friend bool operator==(TTA const& a, TTA const& b) noexcept { return a.v == b.v; }
+    friend bool operator!=(TTA const& a, TTA const& b) noexcept { return a.v != b.v; }
+    friend bool operator<(TTA const& a, TTA const& b) noexcept { return a.v < b.v; }
+};
+static_assert(std::is_trivially_copy_assignable_v<TTA> && std::is_trivially_move_assignable_v<TTA>);
+static_assert(!std::is_trivially_copy_constructible_v<TTA> && !std::is_trivially_destructible_v<TTA>);
+inline int val(TTA const& t) { return t.value(); }
+
 template <typename X>
 inline constexpr bool copy_assignable_v = requires(X& a, X const& b) { a = b; };
 
@@ -877,7 +909,7 @@ struct AmpOwner {
 };
 
 // ------------------------------------------------------------------ case mapping
-constexpr unsigned kOwners = 13;
+constexpr unsigned kOwners = 16;
 template <typename Owner>
 void drive(Owner& o, vf::Chooser& ch, unsigned steps)
 {
@@ -898,7 +930,10 @@ void run_owner(unsigned id, vf::Chooser& ch, unsigned steps)
     case 9: { VecSelfOwner<TCM, 3> o("tcm"); drive(o, ch, 1); break; }
     case 10: { VecSelfOwner<TCO, 3> o("tco"); drive(o, ch, 1); break; }
     case 11: { VecSelfOwner<TMO, 2> o("tmo"); drive(o, ch, 1); break; }
-    default: { AmpOwner o; drive(o, ch, 1); break; }
+    case 12: { AmpOwner o; drive(o, ch, 1); break; }
+    case 13: { OptOwner<TTA> o("trivially-assignable"); drive(o, ch, steps); break; }
+    case 14: { VarOwner<TTA, TCM2> o("trivially-assignable,tcm2,int"); drive(o, ch, steps); break; }
+    default: { VarOwner<TCM, TTA> o("tcm,trivially-assignable,int"); drive(o, ch, steps); break; }
     }
 }
 
